@@ -41,6 +41,7 @@ def _layout(tier):
 
 
 CASES = {t: sum(_layout(t).values()) for t in ('quick', 'thorough')}
+THOROUGH_VALIDATED = True   # full thorough tier ran to completion with exit 0 on the unchanged tree
 MIN_NONTRIVIAL = {'quick': 100, 'thorough': 1200}
 EXHAUSTIVE = {'quick': True, 'thorough': True}
 ANCHORS = ['loki/expression/symbolic.py', 'loki/expression/symbols.py', 'loki/transformations/transform_loop.py',
